@@ -11,6 +11,7 @@ import (
 type entryOpts struct {
 	lowerOnly bool // sources under the i flag are lower case
 	exotic    float64
+	inline    float64 // share of atoms that are inline flag groups next to metacharacters and escapes (C02, C19)
 }
 
 func genAtom(r *rand.Rand, depth int, o entryOpts) string {
@@ -21,6 +22,12 @@ func genAtom(r *rand.Rand, depth int, o entryOpts) string {
 		// upper-case letters are drawn from letters that never occur in lower case anywhere in the grammar, so that
 		// a class of both cases of one letter (known finding D24) does not arise by accident
 		return pick(r, []string{"a", "b", "c", "d", "x", "y", "foo", "bar", "ab", "0", "1", "_", "-", "/", ":", " ", "V", "J", "VJ"})
+	}
+	if o.inline > 0 && chance(r, o.inline) {
+		// inline flag groups: the engine prints them back wherever the flag matters; neighbours with escapes and
+		// literal parentheses are what the flag-removal loops have to tell apart
+		return pick(r, []string{"(?s:.)", "(?s:.)", "(?i:a)", "(?i:f)", "(?i:ab)", "(?-s:.)", "(?s:.).", ".(?s:.)", "(?i:a)b(?i:c)", "\\.", "\\(", "\\)", "\\(?i:", "\\\\(?i:a)",
+			"(?i:a|b)", "(?s:.*)", "(?is:a.)", "(?m:^a)", "(?i:x)\\.", "\\.bcde", "abcd", "bcdefg", "(?s:a.b)"})
 	}
 	switch weighted(r, []int{30, 8, 8, 6, 4, 3, 3, 6, 6}) {
 	case 0:
@@ -101,6 +108,7 @@ type progOpts struct {
 	defs       bool
 	cmdline    bool
 	exotic     float64
+	inline     float64
 	malformed  float64 // probability of injecting a structural fault
 	flagsPfxSf bool
 }
@@ -137,6 +145,8 @@ type progGen struct {
 	nFile  int
 	eo     entryOpts
 	defs   []string
+	// names defined inside include files only: the including file may mention them, they stay unexpanded there
+	fileDefs []string
 }
 
 func (g *progGen) count(k string) { g.p.Kinds[k]++ }
@@ -146,6 +156,10 @@ func (g *progGen) entry() string {
 	if g.o.defs && len(g.defs) > 0 && chance(g.r, 0.25) {
 		e += "{{" + pick(g.r, g.defs) + "}}"
 		g.count("reference")
+	}
+	if g.o.defs && !g.inCmd && len(g.fileDefs) > 0 && chance(g.r, 0.1) {
+		e += "{{" + pick(g.r, g.fileDefs) + "}}"
+		g.count("reference-to-include-local-name")
 	}
 	return e
 }
@@ -163,9 +177,19 @@ func (g *progGen) includeFile(depth int, wordList bool) string {
 		lines = append(lines, "##!$ "+genEntry(g.r, g.eo))
 		g.count("include-suffix")
 	}
-	if !g.inCmd && chance(g.r, 0.2) {
-		lines = append(lines, "##!> define incdef"+fmt.Sprint(g.nFile)+" "+pick(g.r, []string{"[a-z]+", "x", "\\d{2}"}))
-		lines = append(lines, "q{{incdef"+fmt.Sprint(g.nFile)+"}}")
+	if !g.inCmd && chance(g.r, 0.25) {
+		// a file's own definitions: sometimes under a name the including file has defined already (before this
+		// line), which must not matter to the file's text
+		dn := "incdef" + fmt.Sprint(g.nFile)
+		if !wordList && len(g.defs) > 0 && chance(g.r, 0.5) {
+			dn = pick(g.r, g.defs)
+			g.count("include-redefines-outer-name")
+		} else if !wordList {
+			g.fileDefs = append(g.fileDefs, dn)
+		}
+		lines = append(lines, "##!> define "+dn+" "+pick(g.r, []string{"[a-z]+", "x", "\\d{2}", "[0-9]+"}))
+		lines = append(lines, "q{{"+dn+"}}")
+		g.count("include-own-definition")
 	}
 	for i := 0; i < n; i++ {
 		switch weighted(g.r, []int{10, 2, 2, 1}) {
@@ -290,7 +314,7 @@ func (g *progGen) items(depth int, inCmd bool) []string {
 func genProgram(r *rand.Rand, o progOpts) *Program {
 	p := &Program{Kinds: map[string]int{}}
 	g := &progGen{r: r, o: o, p: p}
-	g.eo = entryOpts{exotic: o.exotic}
+	g.eo = entryOpts{exotic: o.exotic, inline: o.inline}
 	var head []string
 	if o.flagsPfxSf {
 		if chance(r, 0.3) {
